@@ -10,7 +10,7 @@
 (*        reserved bits are unchanged (zero in default objects), every getter *)
 (*        returns the bits the layout assigns to it                            *)
 (*   NC   raw bytes after = Put(raw bytes before, field, value)               *)
-EXTENDS Layout, Frames, TLC, Json, IOUtils
+EXTENDS Layout, Frames, Tecmp, TLC, Json, IOUtils
 
 Log == ndJsonDeserialize(IOEnv.TRACE)
 
@@ -37,6 +37,15 @@ GettersMatch(c, raw, get) ==
         IN /\ Len(all) >= f.w
            /\ SubSeq(all, Len(all) - f.w + 1, Len(all)) = Get(c, raw, f)
            /\ \A i \in 1..(Len(all) - f.w) : all[i] = 0
+
+(* values derived from several fields: version strings of the TECMP capture-module status, validity of a payload type *)
+DerivedOK(e) ==
+    IF ~Has(e, "derived") THEN TRUE
+    ELSE IF e.cls = "tecmpCm" /\ Len(e.raw) >= 18 THEN
+        /\ e.derived.swVersion = VersionString(<< At(e.raw, 13), At(e.raw, 14), At(e.raw, 15) >>)
+        /\ e.derived.hwVersion = VersionString(<< At(e.raw, 16), At(e.raw, 17) >>)
+    ELSE IF e.cls = "payloadType" /\ Len(e.raw) = 4 THEN e.derived.isValid = (e.raw[3] # 0 /\ e.raw[4] # 0)
+    ELSE TRUE
 
 NewFails(e) ==
     LET c == e.cls IN
@@ -134,13 +143,13 @@ Step ==
               /\ cnt' = [cnt EXCEPT !.news = @ + 1]
               /\ UNCHANGED << ep, live >>
          [] live /\ e.e = "obj.load" ->
-              /\ Report(LoadFails(e))
+              /\ Report(LoadFails(e) \cup (IF DerivedOK(e) THEN {} ELSE {"NC"}))
               /\ st' = [has |-> TRUE, cls |-> e.cls, raw |-> e.raw, get |-> e.get]
               /\ cnt' = [cnt EXCEPT !.loads = @ + 1,
                                     !.nonzero_background = @ + (IF \E i \in 1..Len(e.raw) : e.raw[i] # 0 THEN 1 ELSE 0)]
               /\ UNCHANGED << ep, live >>
          [] live /\ e.e = "obj.set" ->
-              /\ Report(SetFails(e))
+              /\ Report(SetFails(e) \cup (IF DerivedOK(e) THEN {} ELSE {"NC"}))
               /\ st' = [st EXCEPT !.raw = e.raw, !.get = e.get]       \* resynchronise on the observation
               /\ cnt' = [cnt EXCEPT !.sets = @ + 1,
                                     !.flag_sets = @ + (IF HasField(e.cls, e.f) /\ FieldOf(e.cls, e.f).w = 1 THEN 1 ELSE 0),
